@@ -83,6 +83,7 @@ func (s *pointReader) Read(p []byte) (int, error) {
 }
 
 var c14Text = textBytes(77, 260)
+var c14Long = append(textBytes(78, 6000), randBytes(78, 3000)...)
 
 func c14XZWriter(cfg xz.WriterConfig, data []byte) c14Body {
 	return c14Body{kind: "xzW", run: func(point func()) []byte {
@@ -211,7 +212,9 @@ func c14Scenarios() []c14Scn {
 		{"xzW|xzR", []c14Body{c14XZWriter(small, t[50:200]), c14XZReader(stream)}},
 		{"lzma2W(Flush)|lzma2R", []c14Body{c14LZMA2Writer(lzma.Writer2Config{DictCap: 4096}, t[:130]), c14LZMA2Reader(l2)}},
 		{"xzW|xzR|lzmaW", []c14Body{c14XZWriter(small, t[:110]), c14XZReader(stream2), c14LZMAWriter(lzma.WriterConfig{DictCap: 4096, Matcher: lzma.BinaryTree}, t[20:90], false)}},
-		{"xzW(4 KiB dict)|xzW(2 MiB dict)|then small again", []c14Body{c14XZWriter(small, t[:140]), c14XZWriter(xz.WriterConfig{DictCap: 2 << 20}, t[30:150])}},
+		// several KiB of input: hash-table collisions (and with them any dependence of the output on
+		// recycled or shared tables) only show beyond a few hundred bytes
+		{"xzW(64 KiB dict)|xzW(2 MiB dict) 8 KiB inputs", []c14Body{c14XZWriter(xz.WriterConfig{DictCap: 1 << 16}, c14Long[:8000]), c14XZWriter(xz.WriterConfig{DictCap: 2 << 20}, c14Long[1000:9000])}},
 		{"lzmaW|lzmaW same props (bufio)", []c14Body{c14LZMAWriter(lzma.WriterConfig{DictCap: 4096}, t[:90], false), c14LZMAWriter(lzma.WriterConfig{DictCap: 4096}, t[10:100], false)}},
 	}
 }
